@@ -21,6 +21,9 @@ const (
 )
 
 type vpVaultLiq struct {
+	ratios   int
+	crIn     zzvp.Z
+	crOut    zzvp.Z
 	v        vaulttypes.Vault
 	found    bool
 	seized   int
@@ -63,6 +66,11 @@ func vpVaultLiquidation() (w vpVaultLiq) {
 	zzvp.Mark()
 	w.err = k.LiquidateIndividualVault(ctx, id, zzvp.AnyString(), zzvp.AnyBool())
 	w.seized = zzvp.SpyCount(vpCreateLocked)
+	w.ratios = zzvp.SpyCount(vpVaultCR)
+	if w.ratios > 0 {
+		w.crIn, w.crOut = zzvp.SpyArgZ(vpVaultCR, 0, 3), zzvp.SpyArgZ(vpVaultCR, 0, 4)
+		w.ratioArg = zzvp.SpyResZ(vpVaultCR, 0, 0)
+	}
 	if w.seized > 0 {
 		// the ratio the decision was taken on: the first one computed (before the interest booking)
 		w.ratioArg = zzvp.SpyResZ(vpVaultCR, 0, 0)
@@ -77,6 +85,17 @@ func VP_C09_V2VaultSeizedOnlyBelowItsRatio() {
 	w := vpVaultLiquidation()
 	zzvp.Reach("decision-made")
 	zzvp.Assert(w.seized <= 1, "at-most-one-seizure-per-vault")
+	if w.ratios > 0 {
+		// what "the ratio" is: recorded collateral against principal + accrued interest + closing fee
+		zzvp.Reach("ratio-asked-for")
+		zzvp.Assert(w.crIn.Equal(zzvp.ZI(w.v.AmountIn)), "ratio-is-taken-over-the-recorded-collateral")
+		zzvp.Assert(w.crOut.Equal(zzvp.ZI(w.v.AmountOut).Add(zzvp.ZI(w.v.InterestAccumulated)).Add(zzvp.ZI(w.v.ClosingFeeAccumulated))), "ratio-is-taken-over-principal-interest-and-closing-fee")
+		if zzvp.SpyErrNil(vpVaultCR, 0) && w.ratioArg.LT(w.minCr) {
+			// liveness of the decision: an unsafe vault is seized unless a later step reports failure
+			zzvp.Reach("unsafe-vault")
+			zzvp.Assert(zzvp.Or(w.seized == 1, w.err != nil), "an-unsafe-vault-is-seized-or-the-step-reports-failure")
+		}
+	}
 	if w.seized == 0 {
 		zzvp.Assert(zzvp.BalanceDelta(zzvp.ModuleAddr(vaulttypes.ModuleName), w.denomIn).IsZero(), "no-collateral-leaves-vault-custody-without-a-seizure")
 		return
